@@ -10,7 +10,8 @@ def isWsChar (c : Char) : Bool :=
   c == ' ' || c == '\t' || c == '\n' || c == '\r' || c == '\x0b' || c == '\x0c' || c == ' ' ||
   c == '\u0085' || c == '　'
 
-def isBlank (c : Char) : Bool := isWsChar c
+/-- what the marker line keeps from the source line: the tab (for the spacing), nothing else -/
+def isBlank (c : Char) : Bool := c == '\t'
 
 /-- the marker line under the excerpt: `offset` cells of blank, then one marker per column -/
 def formatMarker (text : List Char) (firstNonWs start stop : Nat) : List Char :=
